@@ -52,6 +52,7 @@ inductive RepOp where
   | drop
   | setMode (m : Mode)
   | setRev (n : Nat)
+  | setRb (b : Bool)                      -- Server.SetRebuilding
   | setCkpt (s : String)
   | rbBegin (name : String) (stale : Bool) -- AddReplica: the automatic snapshot both replicas take
   | stash                                 -- harness: keep a copy of the closed directory (a replica leaves here)
@@ -175,6 +176,11 @@ def step (r : Rep) : RepOp → Rep × RepOut
     if !r.isOpen || m = .init then (r, .refused) else ({ r with mode := m }, .ok)
   | .setRev n =>
     if !r.isOpen || r.mode ≠ .rw then (r, .refused) else ({ r with rev := n }, .ok)
+  | .setRb b =>
+    -- only an open replica that is not yet marked can be marked, only a marked one unmarked
+    -- (Server.SetRebuilding: Open / Dirty -> Rebuilding, Rebuilding -> Open); the flag is part of
+    -- volume.meta and survives close / reopen; no engine operation looks at it
+    if !r.isOpen || r.rb ≠ 0 || (b == r.rebuilding) then (r, .refused) else ({ r with rebuilding := b }, .ok)
   | .setCkpt s =>
     if !r.isOpen then (r, .refused) else ({ r with ckpt := s }, .ok)
   | .stash => if r.isOpen || r.rb ≠ 0 then (r, .refused) else ({ r with stashHead := r.headN, stashCkpt := r.ckpt, hasStash := true }, .ok)
